@@ -377,7 +377,7 @@ Lemma shows_crop_facts tl cols W o L :
   /\ end_attrs o = adefault /\ text_only o = true.
 Proof.
   intros HL Hfit [Hv Ht]. unfold vis_row at 1 3, end_attrs. rewrite Hv. cbn [fst snd].
-  repeat split; try assumption. rewrite firstn_length, skipn_length. unfold vis_row in HL. lia.
+  repeat split; try assumption. rewrite firstn_length, skipn_length. lia.
 Qed.
 
 Section Canvas.
